@@ -41,7 +41,7 @@ func Solve(file string, timeoutS int, only []string) SolveResult {
 	defer cancel()
 	type one struct {
 		name, status, out string
-		t               float64
+		t                 float64
 	}
 	ch := make(chan one, len(solvers))
 	n := 0
@@ -171,12 +171,13 @@ type Obligation struct {
 	Pos      string // source position (informational only)
 	Info     string // clause text etc.
 	// results
-	Result SolveResult
-	File   string
-	RawScript string
-	Trivial bool // discharged by the simplifier
-	X       *Exec // execution context (for replay)
-	timeout int
+	Result     SolveResult
+	File       string
+	RawScript  string
+	Trivial    bool  // discharged by the simplifier
+	X          *Exec // execution context (for replay)
+	timeout    int
+	capTimeout int // known findings: do not spend the full timeout on an obligation known to fail
 }
 
 func (o *Obligation) OK() bool {
@@ -256,6 +257,9 @@ func Discharge(obls []*Obligation, workdir string, timeoutS int) error {
 			to := timeoutS
 			if o.timeout > to || (o.timeout > 0 && o.expect() == "notunsat") {
 				to = o.timeout
+			}
+			if o.capTimeout > 0 && to > o.capTimeout {
+				to = o.capTimeout
 			}
 			splittable := o.expect() == "unsat" && o.RawScript == "" && o.Goal != nil && o.Goal.Op == "and" && len(o.Goal.Args) <= 64
 			if splittable && len(o.Goal.Args) >= 4 {
@@ -427,6 +431,7 @@ func cachedKeys(f *Term) []*Term {
 	keyCacheMu.Unlock()
 	return ks
 }
+
 // solveWithRelevance runs the full query and, if that takes more than a moment, races it against
 // the query restricted to the assumptions that share a term with the goal. unsat of either is a
 // proof; sat/unknown count only for the full query.
